@@ -104,7 +104,7 @@ fn rval_eq(r: &RVal, m: &Val) -> bool {
 }
 
 /// typed extraction of the library vs the reference measurement decoders
-fn compare_measurements(recs: &[Rec], meas: &[Meas]) -> Result<usize, Viol> {
+fn compare_measurements(recs: &[Rec], meas: &[Meas], times_defined: bool) -> Result<usize, Viol> {
     // the reference decodes command events and dead-bands too; the recorder flattens them differently: compare the common kinds
     let keep = |p: ra::PType| !matches!(p, ra::PType::BinaryCommandEvent | ra::PType::AnalogCommandEvent | ra::PType::AnalogDeadBand | ra::PType::UnsignedInteger);
     let rs: Vec<&Rec> = recs.iter().filter(|r| keep(r.ptype)).collect();
@@ -135,6 +135,7 @@ fn compare_measurements(recs: &[Rec], meas: &[Meas]) -> Result<usize, Viol> {
             }
         }
         match (r.time, m.time) {
+            _ if !times_defined && m.rel_time.is_some() => {}
             (None, None) => {}
             (Some((_, a)), Some(b)) if a == b => {}
             (a, b) => {
@@ -275,7 +276,9 @@ pub fn compare(f: &[u8], zl: bool, must_accept: bool) -> Result<Outcome, Viol> {
                 crate::master::extract::extract_measurements_inner(objs, &mut rec);
             }
             let recs: Vec<Rec> = rec.take().into_iter().filter_map(|i| if let Item::M(r) = i { Some(r) } else { None }).collect();
-            nmeas = compare_measurements(&recs, &meas)?;
+            // a common-time header with other than one object: which one applies is not defined
+            let times_defined = !w.headers.iter().any(|h| h.group == 51 && h.count != 1);
+            nmeas = compare_measurements(&recs, &meas, times_defined)?;
         }
     }
     Ok(Outcome::Accepted { headers: lh.len(), objects: nobj, measurements: nmeas })
